@@ -793,12 +793,22 @@ def native_C03(tier, seed):
     rng = np.random.default_rng(seed)
     fails, cases = [], 0
 
-    def quad2(flow, lo, hi, npts=120, as_np=lambda v: np.asarray(v.detach() if hasattr(v, "detach") else v, dtype=float)):
-        gx = np.linspace(lo[0], hi[0], npts + 2)[1:-1]
-        gy = np.linspace(lo[1], hi[1], npts + 2)[1:-1]
+    def quad2(flow, lo, hi, npts=260, as_np=lambda v: np.asarray(v.detach() if hasattr(v, "detach") else v, dtype=float)):
+        """integral of exp(log_prob) over the box by a change of variables that is independent of the code under test: x_i = lo_i + w_i * sigma(z_i),
+        z on a uniform grid (nodes pile up towards the bounds, where the density of a bounded flow may have an integrable spike that a uniform grid
+        in x misses)"""
+        z = np.linspace(-12.0, 12.0, npts)
+        sg = 1.0 / (1.0 + np.exp(-z))
+        w = np.asarray(hi, dtype=float) - np.asarray(lo, dtype=float)
+        gx, gy = lo[0] + w[0] * sg, lo[1] + w[1] * sg
+        jx, jy = w[0] * sg * (1 - sg), w[1] * sg * (1 - sg)
         G = np.stack(np.meshgrid(gx, gy, indexing="ij"), -1).reshape(-1, 2)
+        J = (jx[:, None] * jy[None, :]).reshape(-1)
         lp = as_np(flow.log_prob(G))
-        return float(np.exp(lp).sum() * (gx[1] - gx[0]) * (gy[1] - gy[0]))
+        with np.errstate(all="ignore"):
+            f = np.where(np.isfinite(lp), np.exp(lp) * J, 0.0)
+        dz = z[1] - z[0]
+        return float(f.sum() * dz * dz)
 
     backends = ["zuko"] + (["flowjax"] if tier == "thorough" else [])
     for backend in backends:
